@@ -503,7 +503,10 @@ def make_agent_class():
                             red = None
                     r = txn.cancel_order(order, red, **kw)
                 elif op == "update":
-                    r = txn.update_order(order, a["pt"], **kw)
+                    if a.get("betdaq"):
+                        r = txn.update_order(order, size_delta=a.get("size_delta", 0.0), new_price=a.get("new_price"), **kw)
+                    else:
+                        r = txn.update_order(order, a["pt"], **kw)
                 elif op == "replace":
                     mv = self._mv(market, a.get("mv"))
                     r = txn.replace_order(order, a["price"], market_version=mv, **kw)
@@ -565,6 +568,20 @@ def make_agent_class():
                 )
                 trades.append(trade)
             typ = a.get("type", "LIMIT")
+            if a.get("betdaq"):
+                from flumine.order.ordertype import BetdaqLimitOrder
+
+                ot = BetdaqLimitOrder(a["price"], a["size"], betdaq_runner_id=sel, runner_reset_count=0, withdrawal_sequence_number=0)
+                order = trade.create_betdaq_order(side, ot)
+                lst = self.orders.setdefault(market.market_id, [])
+                lst.append(order)
+                self.seen.add(id(order))
+                kw = {"force": True} if a.get("force") else {}
+                if txn is market:
+                    kw["client"] = self._client()
+                r = txn.place_order(order, **kw)
+                run.res.probes["agent.place.%s" % ("ok" if r else "refused")] += 1
+                return
             if typ == "LIMIT":
                 kw = {}
                 if a.get("line"):
